@@ -131,6 +131,25 @@ def attach(msg, data, source='bytes', tmpdir=None):
         os.unlink(path)       # the open handle keeps the content; nothing is left behind
 
 
+def provoke_encode_failure():
+    """What an application does now and then: hands the library a data set that cannot be encoded (a value out of
+    range for its VR), gets the error, and carries on in the same thread.  Returns True if the library did raise."""
+    import warnings
+    from pydicom.dataset import Dataset
+    from pynetdicom2 import dsutils
+    ds = Dataset()
+    ds.PatientName = 'GHOST^PATIENT'
+    ds.PatientID = 'left-over'
+    with warnings.catch_warnings():
+        warnings.simplefilter('ignore')
+        ds.Rows = 70000
+        try:
+            dsutils.encode(ds, False, True)
+        except Exception:
+            return True
+    return False
+
+
 def expected_fields(spec, has_data=None):
     """element number -> value the wire must carry for this spec (group length excluded)."""
     out = {}
